@@ -215,7 +215,7 @@ def s_terms(draw, n, max_terms=5, max_loc=4, pools=("all", "all", "pauli", "ferm
     pool = POOLS[draw(st.sampled_from(list(pools)))]
     if repeat is None:
         # (repeated sites in 2 of 5 cases: on the unrepaired tree most of them hit known defect C19-a)
-        repeat = draw(st.sampled_from([False, False, False, True, True]))
+        repeat = draw(st.sampled_from([False, True, True]))
     terms = []
     for _ in range(draw(st.integers(1, max_terms))):
         k = draw(st.integers(1, max_loc if repeat else min(max_loc, n)))
@@ -355,7 +355,21 @@ def setup(case, build=True, hs_kw=None, allow_prebuild=False):
             else:
                 b += t
             if pre and k + 1 == pre:
-                b.build_dense()  # a stale cached representation must not survive later edits
+                # a stale cached representation (final terms, coupling maps per dtype, iscomplex) must not survive later edits
+                what = case.get("pre_what", "dense")
+                try:
+                    if what == "dense":
+                        b.build_dense()
+                    elif what == "terms":
+                        b.terms, b.iscomplex, b.locality
+                    elif what == "matvec":
+                        b.matvec(np.ones(b.hilbert_space.size, dtype=complex))
+                    elif what == "sparse128":
+                        b.build_sparse_matrix(dtype="complex128")
+                    else:
+                        b.flatconfig_coupling(np.zeros(b.nsites, dtype=np.uint8))
+                except ValueError:
+                    pass
         if jw:
             b.jordan_wigner_transform(None if case.get("toggle") else True)
         if pd:
@@ -419,7 +433,8 @@ def s_builder_case(draw, tier, max_n=None, jw_ok=True, pauli_ok=True, **term_kw)
             "jw": jw_ok and draw(st.sampled_from([False, False, True])),
             "pauli": draw(st.sampled_from([False, False, False, True, "zx"])) if pauli_ok else False,
             "how": draw(st.sampled_from(["ctor", "iadd", "isub", "add_term", "nocoeff"])),
-            "toggle": draw(st.booleans()), "prebuild": draw(st.integers(0, 3))}
+            "toggle": draw(st.booleans()), "prebuild": draw(st.integers(0, 3)),
+            "pre_what": draw(st.sampled_from(["dense", "dense", "terms", "matvec", "sparse128", "coupling"]))}
     return case
 
 
@@ -513,7 +528,10 @@ def s_matvec(draw, tier):
     case = draw(s_builder_case(tier))
     case["dtype"] = pick_dtype(draw, tier)
     case["act"] = draw(st.sampled_from(["matvec", "matvec_dtype", "matvec_out", "matvec_out_dirty", "linop_at",
-                                        "linop_matvec", "linop_matmat"]))
+                                        "linop_matvec", "linop_matmat", "matvec_realx", "linop_realx"]))
+    if case["how"] != "ctor" and draw(st.integers(0, 3)) == 0:
+        t = case["terms"][draw(st.integers(0, len(case["terms"]) - 1))]
+        case["terms"].append([-t[0], -t[1], [list(o) for o in t[2]]])
     case["parallel"] = draw(st.sampled_from([False, False, 2, True]))
     case["vseed"] = draw(st.integers(0, 2 ** 31 - 1))
     return case
@@ -522,7 +540,7 @@ def s_matvec(draw, tier):
 def run_matvec(case):
     from scipy.sparse.linalg import LinearOperator
 
-    b, ctx = setup(case)
+    b, ctx = setup(case, allow_prebuild=True)
     want_dt = resolve_dtype(b, ctx, case.get("dtype"))
     dt = np.dtype(b.get_dtype(want_dt))  # vectors carry the operator's dtype (a real operator refuses complex input)
     d = 2 ** ctx.n
@@ -530,7 +548,19 @@ def run_matvec(case):
     par = case.get("parallel", False)
     x = make_vec(case["vseed"], d, dt)
     info = dict(route=act, parallel=bool(par))
-    if act == "matvec":
+    if act in ("matvec_realx", "linop_realx"):
+        # a real vector is a legal argument of any operator, real or complex (dtype left to quimb)
+        x = make_vec(case["vseed"], d, "float64")
+        info["complex_operator"] = bool(b.iscomplex)
+        try:
+            got = b.matvec(x, parallel=par) if act == "matvec_realx" else b.aslinearoperator(parallel=par) @ x
+        except TypeError as e:
+            if b.iscomplex and "complex" in str(e):
+                raise Violation("crash", exc="TypeError", where="matvec", real_vector_complex_operator=True,
+                                route=act) from e
+            raise
+        dt = np.dtype("complex128")
+    elif act == "matvec":
         got = b.matvec(x, parallel=par)
     elif act == "matvec_dtype":
         got = b.matvec(x, dtype=dt, parallel=par)
@@ -1648,6 +1678,12 @@ def s_spinham(draw, tier):
         case["var_one"].append([i, [t1() for _ in range(draw(st.integers(1, 2)))]])
     for i in sorted(set(draw(st.lists(st.integers(0, L - 2), max_size=2)))):
         case["var_two"].append([i, [t2() for _ in range(draw(st.integers(1, 3)))]])
+    # bond keys written as (i+1, i): the first operator then sits on site i+1 (as LocalHam1D reads such a key)
+    case["rev"] = [draw(st.sampled_from([False, False, True])) for _ in case["var_two"]]
+    # history: build a representation after the first `pre_at` edits, then go on editing (stale instance caches)
+    nedit = len(case["one"]) + len(case["two"]) + sum(len(ts) if case["how"] != "setitem" else 1 for _, ts in case["var_one"] + case["var_two"])
+    case["pre"] = draw(st.sampled_from([None, "mpo", "mpo", "sparse", "local1d", "all"]))
+    case["pre_at"] = draw(st.integers(1, max(1, nedit)))
     return case
 
 
@@ -1677,28 +1713,60 @@ def run_spinham(case):
     # documented: site specific terms override the default ones on that site / bond
     H, mag = chain_sum(L, D, lambda i: one_m(v1.get(i, case["one"])), lambda i: two_m(v2.get(i, case["two"])), cyc)
     b = qtn.SpinHam1D(S=S2 / 2, cyclic=cyc)
+    rev = dict(zip([i for i, _ in case["var_two"]], case.get("rev") or [False] * len(case["var_two"])))
+    edits = []
     for t in case["one"]:
         if case["how"] == "add_term":
-            b.add_term(coeff(t), oparg(t[2], t[3]))
+            edits.append(lambda t=t: b.add_term(coeff(t), oparg(t[2], t[3])))
         else:
-            b += coeff(t), oparg(t[2], t[3])
+            edits.append(lambda t=t: b.__iadd__((coeff(t), oparg(t[2], t[3]))))
     for t in case["two"]:
         if case["how"] == "add_term":
-            b.add_term(coeff(t), oparg(t[2], t[3]), oparg(t[4], t[5]))
+            edits.append(lambda t=t: b.add_term(coeff(t), oparg(t[2], t[3]), oparg(t[4], t[5])))
         else:
-            b += coeff(t), oparg(t[2], t[3]), oparg(t[4], t[5])
+            edits.append(lambda t=t: b.__iadd__((coeff(t), oparg(t[2], t[3]), oparg(t[4], t[5]))))
+
+    def set1(i, ts):
+        b[i] = [(coeff(t), oparg(t[2], t[3])) for t in ts]
+
+    def add1(i, t):
+        b[i] += coeff(t), oparg(t[2], t[3])
+
+    def set2(i, ts):
+        if rev.get(i):
+            b[i + 1, i] = [(coeff(t), oparg(t[4], t[5]), oparg(t[2], t[3])) for t in ts]
+        else:
+            b[i, i + 1] = [(coeff(t), oparg(t[2], t[3]), oparg(t[4], t[5])) for t in ts]
+
+    def add2(i, t):
+        if rev.get(i):
+            b[i + 1, i] += coeff(t), oparg(t[4], t[5]), oparg(t[2], t[3])
+        else:
+            b[i, i + 1] += coeff(t), oparg(t[2], t[3]), oparg(t[4], t[5])
+
     for i, ts in case["var_one"]:
         if case["how"] == "setitem":
-            b[i] = [(coeff(t), oparg(t[2], t[3])) for t in ts]
+            edits.append(lambda i=i, ts=ts: set1(i, ts))
         else:
-            for t in ts:
-                b[i] += coeff(t), oparg(t[2], t[3])
+            edits += [lambda i=i, t=t: add1(i, t) for t in ts]
     for i, ts in case["var_two"]:
         if case["how"] == "setitem":
-            b[i, i + 1] = [(coeff(t), oparg(t[2], t[3]), oparg(t[4], t[5])) for t in ts]
+            edits.append(lambda i=i, ts=ts: set2(i, ts))
         else:
-            for t in ts:
-                b[i, i + 1] += coeff(t), oparg(t[2], t[3]), oparg(t[4], t[5])
+            edits += [lambda i=i, t=t: add2(i, t) for t in ts]
+    pre = case.get("pre")
+    prebuilt = False
+    for k, ed in enumerate(edits):
+        ed()
+        if pre and k + 1 == case.get("pre_at") and k + 1 < len(edits):
+            prebuilt = True
+            for what, fn in (("mpo", lambda: b.build_mpo(L)), ("sparse", lambda: b.build_sparse(L)),
+                             ("local1d", lambda: b.build_local_ham(L))):
+                if pre in (what, "all"):
+                    try:
+                        fn()  # only its side effects on the instance matter here
+                    except Exception:
+                        pass
     route = case["route"]
     if route == "mpo":
         got = np.asarray(b.build_mpo(L).to_dense())
@@ -1717,7 +1785,9 @@ def run_spinham(case):
                 raise Violation("crash", exc="TypeError", where="SpinHam1D._get_spin_op", array_operands=True) from e
             raise
         got = local1d_dense(ham, L, D)
-    info = dict(route="spinham:" + route, cyclic=cyc, var_one=bool(v1), var_two=bool(v2))
+    anyrev = any(rev.values())
+    info = dict(route="spinham:" + route, cyclic=cyc, var_one=bool(v1), var_two=bool(v2), reversed_key=anyrev,
+                rebuilt_after_edit=prebuilt)
     if got.shape != H.shape:
         raise Violation("shape", got=list(got.shape), want=list(H.shape), **info)
     e = rel_err(got, H, floor=mag)
@@ -1730,9 +1800,16 @@ def run_spinham(case):
             for t in case["two"]:
                 Hm = Hm + embed(coeff(t) * opmat(t[2], t[3]), [D] * L, [L - 1])
             model = rel_err(got, Hm, floor=mag) <= EXACT64
-        raise Violation("value", err=e, c19h_model=bool(model), **info)
+        dropped = False
+        if anyrev and not model and not route.startswith("local"):
+            # model of defect C19-j: a term stored under the key (i+1, i) is never looked up -> that bond keeps the defaults
+            v2d = {i: ts for i, ts in v2.items() if not rev.get(i)}
+            Hd, _ = chain_sum(L, D, lambda i: one_m(v1.get(i, case["one"])), lambda i: two_m(v2d.get(i, case["two"])), cyc)
+            dropped = rel_err(got, Hd, floor=mag) <= EXACT64
+        raise Violation("value", err=e, c19h_model=bool(model), c19j_model=bool(dropped), **info)
     return {"nt": bool(v1 or v2 or cyc or len(case["two"]) > 1), "cls": ["route=" + route, "S2=%d" % S2, "how=" + case["how"]] +
-            (["cyclic"] if cyc else []) + (["var_one"] if v1 else []) + (["var_two"] if v2 else []), "err": e}
+            (["cyclic"] if cyc else []) + (["var_one"] if v1 else []) + (["var_two"] if v2 else []) +
+            (["reversed-key"] if anyrev else []) + (["rebuilt-after-edit:" + str(pre)] if prebuilt else []), "err": e}
 
 
 SUBCHECKS = [
